@@ -411,43 +411,45 @@ def random_cases(ctx, count):
     for _ in range(count):
         kind = rng.choice(["radix", "comb", "ncm", "cns", "perm", "inv", "multi_u", "multi_c", "crp",
                            "prefix_u", "prefix_c", "prefix_u", "prefix_c", "count_u", "count_c", "recur"])
+        big = rng.random() < 0.75          # most cases: counts beyond 2^64
         if kind == "radix":
-            sizes = tuple(rng.randint(1, rng.choice([3, 10, 1000, 10 ** 6])) for _ in range(rng.randint(1, 14)))
+            sizes = tuple(rng.randint(1, rng.choice([1000, 10 ** 6] if big else [3, 10, 1000]))
+                          for _ in range(rng.randint(8 if big else 1, 14)))
             N = math.prod(sizes)
             out.append(("extract_components", (sizes, rng.randrange(N)), True))
         elif kind == "comb":
-            l, n = rng.randint(1, 40), rng.randint(1, 60)
+            l, n = rng.randint(16 if big else 1, 40), rng.randint(20 if big else 1, 60)
             out.append(("jth_combination", (l, n, rng.randrange(pow(n, l))), True))
         elif kind == "ncm":
-            n = rng.randint(0, 300)
-            m = rng.randint(0, n + 2)
+            n = rng.randint(80 if big else 0, 300)
+            m = rng.randint(n // 3, 2 * n // 3) if big else rng.randint(0, n + 2)
             out.append(("n_choose_m", (n, m), True))
         elif kind == "cns":
-            n = rng.randint(1, 90)
-            m = rng.randint(1, n)
+            n = rng.randint(72 if big else 1, 90)
+            m = rng.randint(n // 3, 2 * n // 3) if big else rng.randint(1, n)
             out.append(("cns", (n, m, rng.randrange(math.comb(n, m))), True))
         elif kind == "perm":
-            n = rng.randint(1, 70)
-            m = rng.randint(0, n)
+            n = rng.randint(30 if big else 1, 70)
+            m = rng.randint(22 if big else 0, n)
             out.append(("perm_prefix", (n, m, rng.randrange(math.perm(n, m))), True))
         elif kind == "inv":
-            n = rng.randint(1, 70)
-            m = rng.randint(0, n)
+            n = rng.randint(30 if big else 1, 70)
+            m = rng.randint(22 if big else 0, n)
             out.append(("inversion", (n, m, rng.randrange(math.perm(n, m))), True))
         elif kind == "multi_u":
-            q, m = rng.randint(1, 12), rng.randint(1, 4)
+            q, m = rng.randint(8 if big else 1, 12), rng.randint(3 if big else 1, 4)
             N = math.factorial(q * m) // math.factorial(m) ** q
             out.append(("cpwc", (rng.randrange(N), q, m), True))
         elif kind == "multi_c":
-            cs = tuple(rng.randint(0, 4) for _ in range(rng.randint(1, 12)))
+            cs = tuple(rng.randint(2 if big else 0, 4) for _ in range(rng.randint(9 if big else 1, 12)))
             N = oracle_multinomial(cs)
             out.append(("cpwvc", (rng.randrange(N), len(cs), cs), True))
         elif kind == "crp":
             cs = tuple(rng.randint(0, 9) for _ in range(rng.randint(0, 14)))
             out.append(("crp", (cs,), True))
         elif kind in ("prefix_u", "count_u", "recur"):
-            q, m = rng.randint(1, 12), rng.randint(1, 4)
-            fn = rng.randint(0, min(20, q * m))
+            q, m = rng.randint(10 if big else 1, 12), rng.randint(2 if big else 1, 4)
+            fn = rng.randint(min(19, q * m) if big else 0, min(20, q * m))
             if kind == "count_u":
                 out.append(("count_pwc", (q, m, fn), True))
             elif kind == "recur":
@@ -457,8 +459,8 @@ def random_cases(ctx, count):
                 j = rng.randrange(N) if (N > 0 and rng.random() < 0.9) else rng.choice([N, N + 1, -1])
                 out.append(("kprefix", (q, ("u", m), fn, j, ()), 0 <= j < N))
         else:
-            cs = tuple(rng.randint(0, 4) for _ in range(rng.randint(1, 12)))
-            fn = rng.randint(0, min(20, sum(cs)))
+            cs = tuple(rng.randint(1 if big else 0, 4) for _ in range(rng.randint(11 if big else 1, 12)))
+            fn = rng.randint(min(19, sum(cs)) if big else 0, min(20, sum(cs)))
             if kind == "count_c":
                 out.append(("count_pwvc", (len(cs), cs, fn), True))
             else:
